@@ -28,8 +28,8 @@ def plan(tier):
     I.append(inst("intersect[RP2 line^line, pairwise, composite]", 'harness.c16', 'intersect', dict(n=3, k1=2, k2=2, broadcast="pairwise", composite=True), weight=10, timeout_s=900))
     I.append(inst("intersect[RP2 line^line, elementwise, composite]", 'harness.c16', 'intersect', dict(n=3, k1=2, k2=2, composite=True), weight=10, timeout_s=900))
     if not q:
-        I.append(inst("intersect[RP3 plane^plane]", 'harness.c16', 'intersect', dict(n=4, k1=3, k2=3), weight=300, timeout_s=2400, opts=dict(max_vars=64)))
-        I.append(inst("intersect[RP3 line^plane]", 'harness.c16', 'intersect', dict(n=4, k1=2, k2=3), weight=200, timeout_s=2400, opts=dict(max_vars=64)))
+        I.append(inst("intersect[RP3 plane^plane]", 'harness.c16', 'intersect', dict(n=4, k1=3, k2=3), weight=300, timeout_s=1500, opts=dict(max_vars=64)))
+        I.append(inst("intersect[RP3 line^plane]", 'harness.c16', 'intersect', dict(n=4, k1=2, k2=3), weight=200, timeout_s=1500, opts=dict(max_vars=64)))
     for perm in range(6):
         if q and perm not in (0, 3):
             continue
